@@ -2295,6 +2295,25 @@ Example dst_eof_cancel_while_waiting_for_data :
   (exists s, dhist ox_eof_cancel_calls s0 None = Some (s, Some (1, 7, true, true))).
 Proof. vm_compute. repeat split; try reflexivity. eexists; reflexivity. Qed.
 
+(* sender, acknowledged mode, Positive ACK Limit Reached with the fault handler "ignore" (F34 repair): one callback,
+   the counter goes on, the EOF PDU is re-sent, so EOF-Sent FOLLOWS the fault callback in that call; a following call
+   before the next expiry delivers nothing (the fault is not declared again); accepted *)
+Definition ox_ig_l : lcfg :=
+  mkLcfg 1 2 true true true true ((C_POS_ACK_LIMIT, FH_IGNORE) :: default_fault_table) 1000 [ox_r 2 ACKED false].
+Definition ox_ig_src : src := src_fresh ox_ig_l 0 16 [([1], File [3; 10; 17; 24; 31])].
+Definition ox_ig_start : list scall := [SPut ox_put] ++ ox_pump ++ ox_pump ++ ox_pump ++ ox_pump ++ ox_pump.
+Definition ox_ig_tick : list scall := [STick 1000] ++ ox_pump.
+Example src_eof_sent_after_ignored_fault :
+  let before := shist (ox_ig_start ++ ox_ig_tick) ox_ig_src in
+  let at_limit := shist (ox_ig_start ++ ox_ig_tick ++ ox_ig_tick) ox_ig_src in
+  let later := shist (ox_ig_start ++ ox_ig_tick ++ ox_ig_tick ++ ox_pump) ox_ig_src in
+  rev (log_s before) = [EvTransaction 1 0 None; EvEofSent 1 0; EvEofSent 1 0] /\
+  log_s at_limit = EvEofSent 1 0 :: EvFault FH_IGNORE 1 0 C_POS_ACK_LIMIT 5 :: log_s before /\
+  q_ack_counter (s_p at_limit) = 2 /\ s_step at_limit = SS_WAITING_FOR_EOF_ACK /\
+  log_s later = log_s at_limit /\
+  src_run None (rev (log_s later)) = Some (Some (1, 0, false)).
+Proof. vm_compute. repeat split; reflexivity. Qed.
+
 (* ---- what the model does NOT guarantee (statements of the draft that are false; the model follows the code) *)
 (* receiver, Transaction-Finished "at most once": a cancel request after the completion (while the Finished PDU is
    sent / its ACK awaited) completes the transaction again, every time *)
